@@ -20,6 +20,7 @@
                       estimated for the same elements, cached in design_span_loss.
  R5 chaining        : in set_egress_amplifier the (dp, voa) returned for one amplifier are what the next one receives as
                       (prev_dp, prev_voa); the walk starts from the ROADM/transceiver output target.
+ Rm memo          : every memoisation construct in the functions behind this property is keyed by everything it reads.
 """
 import ast
 
@@ -398,4 +399,9 @@ def r6_span_loss(ctx):
     ctx.need('R6.span-loss', 4)
 
 
-RULES = [('R6.span-loss', r6_span_loss), ('R1.budget', r1_budget), ('R2.rule', r2_rule), ('R3.saturation', r3_saturation), ('R4.voa', r4_voa), ('R5.chaining', r5_chaining)]
+
+from ..memo import rule_for as _memo_rule
+
+RULES_MEMO = ('Rm.memo', _memo_rule('C09', 'the operating point designed for another element or reference would be reused'))
+
+RULES = [('R6.span-loss', r6_span_loss), ('R1.budget', r1_budget), ('R2.rule', r2_rule), ('R3.saturation', r3_saturation), ('R4.voa', r4_voa), ('R5.chaining', r5_chaining), RULES_MEMO]
